@@ -17,6 +17,21 @@ Theorem C18_stage_safe : forall (M : transducer T) (nil_in : bool) (tr : list (l
   stage_rel M 0 (ins_of 0 tr) (outs_of 0 tr) (closed_of 0 tr) (has_ctx tr).
 Proof. exact (stage_safe Teqb Teqb_ok). Qed.
 
+(* ... together with the user-function calls: in every trace the predicate / map function is applied exactly to the
+   received elements the combinator evaluates (uses_of), in order, once each; never to anything else (in
+   particular not to a fabricated zero value when the receive reports the input closed) *)
+Theorem C18_stage_safe_calls : forall (M : transducer T) (uses : nat -> bool) (nil_in : bool) (tr : list (label T)) (s : pc T),
+  run (step Teqb M) (stage_init M nil_in) tr = Some s ->
+  stage_rel_c M uses 0 (ins_of 0 tr) (outs_of 0 tr) (closed_of 0 tr) (has_ctx tr) (tr_calls M uses 0 (ins_of 0 tr)).
+Proof. exact (stage_safe_c Teqb Teqb_ok). Qed.
+Theorem C18_calls_received_only : forall (M : transducer T) (uses : nat -> bool) (c : list T) (q : nat),
+  exists mask : list bool, length mask = length c /\ tr_calls M uses q c = map snd (filter fst (combine mask c)).
+Proof. exact tr_calls_sub. Qed.
+Theorem C18_stage_rel_c_b_ok : forall (M : transducer T) uses incap ins outs closed cancelled calls,
+  stage_rel_c_b Teqb M uses incap ins outs closed cancelled calls = true <->
+  stage_rel_c M uses incap ins outs closed cancelled calls.
+Proof. exact (stage_rel_c_b_ok Teqb Teqb_ok). Qed.
+
 (* the transducer of each combinator computes the list function the property names *)
 Theorem C18_stage_function : forall (k : kind T) (xs : list T), tr_run (tr_of k) 0 xs = fn_of k xs.
 Proof. exact stage_function. Qed.
@@ -133,13 +148,18 @@ Example C18_nonvacuous :
   let tr := [recv 0 5%Z; recv 0 6%Z; send 0 6%Z; recv 0 7%Z; ctx_done; close_out 0; exit 0] in
   run (step Z.eqb M) (stage_init M false) tr = Some PDone /\
   outs_of 0 tr = [6%Z] /\ has_ctx tr = true /\ closes_of 0 tr = 1 /\
-  check_case (KStage (CSkipN 1) false 0 [5; 6; 7]%Z [6]%Z true true) = 0 /\
-  check_case (KStage (CSkipN 1) false 0 [5; 6; 7]%Z [6; 7]%Z true false) = 0 /\
-  check_case (KStage (CSkipN 1) false 0 [5; 6; 7]%Z [7]%Z true false) = 2 /\
-  check_case (KStage (CSkipN 1) false 0 [5; 6; 7]%Z [6]%Z true false) = 2 /\
-  check_case (KStage (CTaskN 1) false 0 [5]%Z [5]%Z true false) = 0 /\
-  check_case (KStage (CTaskN 1) false 0 [5; 6]%Z [5]%Z true false) = 2 /\     (* consumed an element after its loop had ended *)
-  check_case (KStage (CTaskN 1) false 1 [5; 6]%Z [5]%Z true false) = 0 /\     (* ... unless it may still sit in the input buffer *)
+  check_case (KStage (CSkipN 1) false 0 [5; 6; 7]%Z [6]%Z true true []) = 0 /\
+  check_case (KStage (CSkipN 1) false 0 [5; 6; 7]%Z [6; 7]%Z true false []) = 0 /\
+  check_case (KStage (CSkipN 1) false 0 [5; 6; 7]%Z [7]%Z true false []) = 2 /\
+  check_case (KStage (CSkipN 1) false 0 [5; 6; 7]%Z [6]%Z true false []) = 2 /\
+  check_case (KStage (CTaskN 1) false 0 [5]%Z [5]%Z true false []) = 0 /\
+  check_case (KStage (CSkipFn (PLt 3)) false 0 [1; 4]%Z [4]%Z true false [1; 4]%Z) = 0 /\
+  check_case (KStage (CSkipFn (PLt 3)) false 0 [1; 4]%Z [4]%Z true false [1; 4; 0]%Z) = 2 /\   (* fn called on a phantom element *)
+  check_case (KStage (CSkipWhile (PLt 3)) false 0 [1; 4; 2]%Z [4; 2]%Z true false [1; 4]%Z) = 0 /\
+  check_case (KReduce false RSub [5; 2; 1]%Z 2 [(5, 2); (3, 1)]%Z) = 0 /\
+  check_case (KReduce false RSub [5; 2; 1]%Z 2 [(0, 5); (5, 2); (3, 1)]%Z) = 2 /\
+  check_case (KStage (CTaskN 1) false 0 [5; 6]%Z [5]%Z true false []) = 2 /\     (* consumed an element after its loop had ended *)
+  check_case (KStage (CTaskN 1) false 1 [5; 6]%Z [5]%Z true false []) = 0 /\     (* ... unless it may still sit in the input buffer *)
   run (fanout_step Z.eqb true 2) fanout_init
       [recv 0 1%Z; spawn 0; spawn 1; send 1 1%Z; recv_closed 0; send 0 1%Z; tau; close_out 0; close_out 1; exit 0]
     = Some {| o_pc := ODone; o_pend := [] |} /\
@@ -150,6 +170,9 @@ Example C18_nonvacuous :
 Proof. vm_compute. repeat split; reflexivity. Qed.
 
 Print Assumptions C18_stage_safe.
+Print Assumptions C18_stage_safe_calls.
+Print Assumptions C18_calls_received_only.
+Print Assumptions C18_stage_rel_c_b_ok.
 Print Assumptions C18_stage_function.
 Print Assumptions C18_stage_close_cause.
 Print Assumptions C18_stage_close.
